@@ -97,6 +97,7 @@ func NewRun(prop, tier string) *Run {
 
 // SetDeadline sets an internal time cap; Expired() then reports it and marks the run non-exhaustive.
 func (r *Run) SetDeadline(d time.Duration) { r.deadline = r.start.Add(d) }
+func (r *Run) DeadlineTime() time.Time { return r.deadline }
 func (r *Run) Expired() bool {
 	if r.deadline.IsZero() || time.Now().Before(r.deadline) {
 		return false
